@@ -499,6 +499,9 @@ class Client:
         except ssl.SSLError as e:
             raise Error("SSL error: %s" % str(e))
         self.sock = nsock
+        # Anything received in clear text after the server's OK is not to
+        # be trusted (RFC 5804, section 2.2): drop it.
+        self.__read_buffer = b""
         self.__capabilities = {}
         self.__get_capabilities()
         return True
